@@ -3427,7 +3427,9 @@ def _r_level_relative_push(ctx, rule):
     for site_fid, c in sites:
         resolvers = {r for r in dispatch if r == site_fid or site_fid in cg.reachable([r])}
         if not resolvers:
-            raise AnalysisError('%s: push_patch_decision is called but no strategy dispatch reaches this function' % site_fid)
+            # dispatch by table / other indirection: which strategies reach this function is not recovered -- no verdict (R03.4 / R10.1 judge the dispatch itself)
+            ctx.inst(rule, site_fid, 'moves decisions to its own level; the strategies that dispatch to it were not recovered', True, 'not judged', c, nontrivial=False)
+            continue
         for r in sorted(resolvers):
             rf = repo.functions[r]
             keeps = any(isinstance(x, ast.Call) and isinstance(x.func, ast.Attribute) and x.func.attr == 'extend' and (dotted(x.func.value) or '').endswith('.decisions') for x in ast.walk(rf)) or \
